@@ -296,7 +296,7 @@ func flagString(f int64) string {
 	for _, x := range []struct {
 		bit  int64
 		name string
-	}{{0x40, "O_CREATE"}, {0x80, "O_EXCL"}, {0x200, "O_TRUNC"}, {0x400, "O_APPEND"}, {0x101000, "O_SYNC"}} {
+	}{{oCREATE, "O_CREATE"}, {oEXCL, "O_EXCL"}, {oTRUNC, "O_TRUNC"}, {oAPPEND, "O_APPEND"}, {oSYNC, "O_SYNC"}} {
 		if f&x.bit == x.bit {
 			parts = append(parts, x.name)
 		}
